@@ -29,7 +29,7 @@ ASSUMPTIONS = ["benign acceptances outside the statement are DONT_CARE: empty ki
                "RSA consistency of d with p,q is checked by the backend only partially: replacing d by another value of the same length is DONT_CARE unless accepted AND usable"]
 BUDGET_S = {"quick": 85, "thorough": 1200}
 FLOORS = {"quick": {"part:roundtrip": 2500, "part:malformed": 4000, "key:short": 300, "export:pem-encrypted": 150, "mut:retype": 1500, "mut:delete": 300,
-                    "mut:bad-base64": 300, "mut:coordinate": 300, "mut:partial-crt": 100}, "thorough": {"part:roundtrip": 25000}}
+                    "mut:bad-base64": 300, "mut:coordinate": 300, "mut:partial-crt": 100, "mut:crt-inconsistent": 40}, "thorough": {"part:roundtrip": 25000}}
 
 MAX_RSA = [3072]   # 4096-bit keys only in the thorough tier (export with a password is slow)
 ALL_TYPES = ["oct", "RSA", "P-256", "P-384", "P-521", "secp256k1", "Ed25519", "Ed448", "X25519", "X448"]
@@ -270,8 +270,8 @@ OTHER_VALUES = [None, True, 7, 1.5, "not base64 !!", ["a"], {"a": 1}, [], ""]
 
 @st.composite
 def mal_cases(draw):
-    mut = draw(st.sampled_from(["delete", "retype", "retype", "retype", "use-keyops", "bad-base64", "len1mod4", "partial-crt", "partial-crt", "coordinate", "coordinate", "oth", "padding"]))
-    if mut in ("partial-crt", "oth"):
+    mut = draw(st.sampled_from(["delete", "retype", "retype", "retype", "use-keyops", "bad-base64", "len1mod4", "partial-crt", "partial-crt", "coordinate", "coordinate", "oth", "padding", "crt-inconsistent"]))
+    if mut in ("partial-crt", "oth", "crt-inconsistent"):
         key, private = draw(gk.rsa_key(1024, 2048)), True
     elif mut == "coordinate":
         key = draw(st.sampled_from(ALL_TYPES[2:]).flatmap(lambda t: gk.ec_key(t) if t in CURVES else gk.okp_key(t)))
@@ -339,6 +339,15 @@ def mal_cases(draw):
             for m in drop:
                 del jwk[m]
             c["member"] = ",".join(sorted(drop))
+    elif mut == "crt-inconsistent":
+        # a complete private RSA JWK one of whose CRT members (or d) is another odd value of the same size: the members no longer
+        # describe one key (dp != d mod (p-1), ...)
+        m = draw(st.sampled_from(["dp", "dq", "qi", "d"]))
+        v = rb.b64_to_int(jwk[m])
+        jwk[m] = rb.int_to_b64(v + 2 if m != "swap" else v)
+        if draw(st.booleans()) and m in ("dp", "dq"):
+            jwk["dp"], jwk["dq"] = jwk["dq"], jwk["dp"]
+        c["member"] = m
     elif mut == "coordinate":
         if key["kty"] == "EC":
             m = draw(st.sampled_from(["x", "y"] + (["d"] if private else [])))
